@@ -56,3 +56,21 @@ def _(E, c):
     m = map_of(E, c.args[0])
     E.store(c.args[0], MapM(None, (), m.vty, m.kind, m.kty))
     return UNIT
+
+
+def _bytecode_hash_empty(E):
+    """BytecodeHash::EMPTY is a hex_literal::hex! constant (const-evaluated by rustc through hex_literal::decode): its 32 bytes
+    are read from the literal in the current source"""
+    import os, re
+    from .srcindex import REPO
+    src = open(os.path.join(REPO, 'actors/evm/src/state.rs')).read()
+    m = re.search(r'pub const EMPTY: Self\s*=\s*Self\(\s*hex_literal::hex!\("([0-9a-fA-F]{64})"\)\s*\)', src)
+    if not m:
+        raise Inconclusive('BytecodeHash::EMPTY literal not found in actors/evm/src/state.rs')
+    bs = bytes.fromhex(m.group(1))
+    return StructV('state::BytecodeHash', {0: VecV([IntV(b, 'u8') for b in bs], '[u8; 32]')})
+
+
+from .engine import EXTERNAL_CONSTS
+EXTERNAL_CONSTS['state::BytecodeHash::EMPTY'] = _bytecode_hash_empty
+EXTERNAL_CONSTS['BytecodeHash::EMPTY'] = _bytecode_hash_empty
